@@ -33,7 +33,10 @@ def xr_case(draw, nmin=1):
             "dtype": draw(st.sampled_from(["float", "float", "complex", "int"])), "unit": draw(st.sampled_from(gen.FIELD_UNITS)),
             "remove": draw(st.sampled_from(["none", "none", "cell", "pmin", "pmax", "tolerance_factor", "coord-units", "geometry",
                                             "geometry+tolerance", "units-attr"])),
-            "name": draw(st.sampled_from(["field", "m", "mag_1"]))}
+            "name": draw(st.sampled_from(["field", "m", "mag_1"])),
+            # an identical DataArray whose coords mapping lists the coordinates in another order
+            "coords_order": draw(st.sampled_from(["as-exported", "as-exported", "reversed", "shuffled", "reassigned"])),
+            "coords_seed": draw(st.integers(0, 1000))}
 
 
 def build(case):
@@ -148,6 +151,30 @@ def strip(xa, what):
     return xa
 
 
+def reorder_coords(xa, case):
+    """the same DataArray (xarray's `identical`) with its coords mapping in another insertion order"""
+    import xarray as xr
+
+    mode = case.get("coords_order", "as-exported")
+    if mode == "as-exported":
+        return xa
+    tag("coords-" + mode)
+    names = list(xa.coords)
+    if mode == "reassigned":
+        d = names[case["coords_seed"] % len(names)]
+        new = xa.assign_coords({d: xa[d]})
+    else:
+        if mode == "reversed":
+            order = names[::-1]
+        else:
+            order = list(np.random.default_rng(case["coords_seed"]).permutation(names))
+        new = xr.DataArray(xa.values, dims=xa.dims, coords={k: xa.coords[k] for k in order}, attrs=dict(xa.attrs),
+                           name=xa.name)
+    if not new.identical(xa):
+        raise Reject()
+    return new
+
+
 def check_roundtrip(case):
     import discretisedfield as df
 
@@ -158,7 +185,7 @@ def check_roundtrip(case):
     tag("remove=" + rm)
     if rm in ("cell", "geometry", "geometry+tolerance") and any(k == 1 for k in g["n"]):
         raise Reject()
-    xa = strip(f.to_xarray(), rm)
+    xa = reorder_coords(strip(f.to_xarray(), rm), case)
     back = df.Field.from_xarray(xa)
     require(back.nvdim == f.nvdim, "import-nvdim")
     require(np.array_equal(back.mesh.n, mesh.n), "import-n", f"{back.mesh.n} vs {mesh.n}")
